@@ -163,6 +163,8 @@ TEXT = {
                       "C02_from_reads: the same for the table built from any read set (hypotheses discharged by C05_table_wf). "
                       "C02_order_independent (uniqueness up to cycle cut and orientation): for any two listings of the same table - any two hash "
                       "orders - both compressions return and every node of either result has exactly the canonical k-mers of a node of the other. "
+                      "C02_is_compressed: the crate's own oracle agrees - is_compressed (modelled; tied by the C09 `iscomp` requests) returns None on the graph "
+                      "built from any closed table, in particular from the pruned table of any read set (C02_is_compressed_from_reads). "
                       "Independently, components recomputed from the table by label propagation are compared with the crate's nodes.",
         "design_ref": "DESIGN.md section 6, C02",
         "level_note": COMMON_NOTE + "Symmetric join is a hypothesis (both shipped specs satisfy it).",
